@@ -1656,6 +1656,11 @@ func (x *Exec) bufSegments(st *State, sl *SliceV, cur T) (T, bool) {
 		res = parts[0]
 	}
 	res.Segs = segs
+	if !strings.Contains(res.S, "(fixw ") {
+		// all pieces have known widths: the piece form is proved equal to the exact contents (prefix ++ copied bytes ++
+		// rest, per copy); with a cut / padded piece the equality is beyond the solvers and the rule is trusted
+		x.emit(st, "buffer-layout", x.oblName("buffer-layout-eq"), "", Eq(T{S: res.S, So: SString}, T{S: cur.S, So: SString}))
+	}
 	x.e.note("byte buffers filled by copy() at increasing constant offsets are read as the concatenation of their pieces (fixed-width pieces are the source cut or zero-padded to the width)")
 	return res, true
 }
